@@ -29,9 +29,20 @@ func (x *Exec) Choices() []int {
 }
 
 // RunOnce executes body under the given choice prefix (default choice 0 afterwards).
+// resets are run before every execution: process-wide state of the shims (e.g. the contents of
+// package-level sync.Pools of the code under test) must not leak from one execution into the next,
+// or a recorded prefix would not replay.
+var resets []func()
+
+// RegisterReset registers f to run before every later execution.
+func RegisterReset(f func()) { resets = append(resets, f) }
+
 func RunOnce(body func(), prefix []int, cfg Config) *Exec {
 	if s != nil {
 		panic("mc: nested execution")
+	}
+	for _, f := range resets {
+		f()
 	}
 	sc := &sched{yield: make(chan struct{}), prefix: prefix, cfg: cfg, trace: cfg.Trace, maxSteps: cfg.MaxSteps, pendings: map[*thread]*pendingSel{}}
 	if sc.maxSteps == 0 {
